@@ -89,12 +89,17 @@ PROP = dict(
          "booked, moved and followed by good moves) and a huge-weight family (6%: i64 vertex weights with part sums at 2^52..2^62 "
          "+- a few units / half-ulps, pinned by one or two huge vertices per part, plus 1..6 movable vertices of weight "
          "1..5 with positive gains across the cut; cap = heaviest part, max_imbalance 0 / j*2^-52 / 0.1..2 with "
-         "(1+mi)*half near the base; every sum < 2^63; four pinned textbook inputs around 2^53). The quick tier runs cases/4 more, the thorough tier cases/2 more, "
+         "(1+mi)*half near the base; every sum < 2^63; five pinned textbook inputs around 2^53, one of them the witness of the open finding). The quick tier runs cases/4 more, the thorough tier cases/2 more, "
          "against the RELEASE build of the harness (no debug_assert!; the model's fm_dbg flag follows the profile recorded "
          "in each case); a watchdog reports a hang or a runaway move loop as IHang (prop_ok = false). Each case carries the implementation's own trace (per pass: "
          "recorded cut, moves (vertex, gain)) which the model replays and checks for admissibility; distinct = distinct "
          "(input, parameters, trace), i.e. distinct executions; non-trivial = contract stream and at least one move made",
     class_names={0: "Ok unchanged", 1: "Ok changed", 2: "panic (in contract)", 3: "hang", 4: "error (in contract)",
+                 20: "code cap above property cap (known-finding class): Ok unchanged",
+                 21: "code cap above property cap (known-finding class): Ok changed",
+                 22: "code cap above property cap (known-finding class): panic",
+                 23: "code cap above property cap (known-finding class): hang",
+                 24: "code cap above property cap (known-finding class): error",
                  10: "outside contract: Ok unchanged", 11: "outside contract: Ok changed", 12: "outside contract: panic",
                  13: "outside contract: hang", 14: "outside contract: error"},
     trusted_base=[
@@ -102,8 +107,13 @@ PROP = dict(
         "the trace hook of /repo/src/verif.rs records the (vertex, gain) the implementation actually moved and the "
         "current_edge_cut at each pass start (add-only, feature coupe_verif)",
         "modelled, not verified: i64 overflow of weight sums and gains (contract: they fit), f64 vertex weights (run with i64 only)",
-        "the cap of the checker is the code's own formula (heaviest input part, or trunc(f64(total)/2 + mi*f64(total)/2) in "
-        "IEEE double arithmetic), not (1+mi)*total/2 over the reals: above 2^53 the two differ by up to half an ulp of the total",
+        "the cap of the property text is read as cap_prop (Model/Fm.v): the heaviest input part, or the EXACT "
+        "(1+max_imbalance)*total/2 (max_imbalance = the value of the binary64 parameter, total in Z) rounded ONCE to "
+        "binary64 (SpecFloat binary_normalize, ties to even) and truncated to i64 -- what an ideal f64 implementation of the "
+        "documented formula returns; the certified checker judges every output against THIS cap, the model/implementation "
+        "correspondence uses the code's own cap (three roundings)",
+        "the harness recomputes cap_prop with its own exact integer arithmetic (to tag the known-finding class from the input "
+        "alone); the run glue's class +20 counts the same condition in Coq and the two counts are compared in the evidence",
     ],
     assumptions=[
         "HashSet iteration yields each element of the set exactly once, in an arbitrary order (the model quantifies over the "
@@ -118,7 +128,7 @@ PROP = dict(
 )
 
 MANIFEST = dict(
-    text="Theorems C07_sound (cut out <= cut in; each part <= max(own input weight, cap); Metadata: one entry per pass, <= max_passes "
+    text="Theorems C07_sound (about the code's cap: cut out <= cut in; each part <= max(own input weight, cap); Metadata: one entry per pass, <= max_passes "
          "passes, <= max_moves_per_pass moves, rewound <= moves, relabelled vertices <= moves kept), C07_cut_tracked (the "
          "debug_assert current_edge_cut == edge_cut(partition) never fires), C07_gain_invariant / C07_cut_tracked_state / "
          "C07_cap_every_point (invariants of every state reachable in a pass) and C07_terminates proved for ALL symmetric "
@@ -127,7 +137,10 @@ MANIFEST = dict(
          "min target weight, bad-move counter, history, best prefix, rewind, pass loop on fuel, f64 cap formula). On every run "
          "the implementation's own choices are replayed through the model, which checks each is one the code may make and "
          "that final partition and Metadata coincide; a checker proved equivalent to the property clauses judges every "
-         "implementation output; the operators/literals deciding the property are re-read from the source.",
+         "implementation output against the cap of the property text (cap_prop: exact (1+mi)*total/2 rounded once; "
+         "C07_sound_prop_cap_none: full strength without max_imbalance; C07_sound_prop_cap_partial: with max_imbalance when "
+         "the code's cap <= cap_prop -- held on every generated input with total < 2^53, validated not proved; "
+         "C07_cap_exact_refuted_above_2p53: refuted beyond, open known finding fm-cap-f64-rounding-total-ge-2p53); the operators/literals deciding the property are re-read from the source.",
     design_ref="DESIGN.md §7 C07",
     note="Trusted: Coq kernel; model<->code tie = translator (shape of 12 code fragments) + trace-replay differential runs (8k+2k release / 60k+30k release "
          "executions); SpecFloat = hardware f64 for the cap formula; HashSet yields each member once; i64 sums do not overflow. "
